@@ -7,18 +7,40 @@ import SqlframeModel.Impl.C05Engine
 namespace Sqlframe.C05
 open Lean Sqlframe
 
+deriving instance FromJson, ToJson for Dbl
+deriving instance FromJson, ToJson for CVal
+deriving instance FromJson, ToJson for PyFloat
+deriving instance FromJson, ToJson for PyVal
 deriving instance FromJson, ToJson for Arith
 deriving instance FromJson, ToJson for Cmp
 deriving instance FromJson, ToJson for Logic
 deriving instance FromJson, ToJson for StrFn
 deriving instance FromJson, ToJson for Ty
+deriving instance FromJson, ToJson for Site
 deriving instance FromJson, ToJson for PyExpr
 
-def litSexp : Val → Json
+/-- compact value encoding used in outputs: null / int / bool as plain JSON, strings tagged, doubles as the
+    exact decimal `{"d": [m, e]}` (= m · 10^e) or `{"d": "nan" | "inf" | "-inf"}` -/
+def CVal.toPlain : CVal → Json
+  | .null => Json.null
+  | .int i => toJson i
+  | .str s => Json.mkObj [("s", toJson s)]
+  | .bool b => toJson b
+  | .dbl (.fin m e) => Json.mkObj [("d", Json.arr #[toJson m, toJson e])]
+  | .dbl .nan => Json.mkObj [("d", "nan")]
+  | .dbl .pinf => Json.mkObj [("d", "inf")]
+  | .dbl .ninf => Json.mkObj [("d", "-inf")]
+
+def tokSexp : Tok → Json
   | .null => Json.arr #["Null"]
-  | .bool b => Json.arr #["Boolean", toJson b]
-  | .int i => Json.arr #["Literal", toJson i]
-  | .str s => Json.arr #["Literal", Json.mkObj [("s", toJson s)]]
+  | .boolean b => Json.arr #["Boolean", toJson b]
+  | .number t => Json.arr #["Number", toJson t]
+  | .string s => Json.arr #["Literal", Json.mkObj [("s", toJson s)]]
+
+def litSexp : LitNode → Json
+  | .tok t => tokSexp t
+  | .cast t ty => Json.arr #["Cast", tokSexp t, toJson ty]
+  | .opaque w => Json.arr #["opaque", toJson w]
 
 def SqlExpr.toSexp : SqlExpr → Json
   | .col n => Json.arr #["Column", toJson n]
